@@ -23,6 +23,8 @@ use std::time::Duration;
 pub enum ProbeMsg {
     /// (sender, seq)
     Cast(u32, u32),
+    /// (sender, seq, ballast): a cast like any other, with a large argument
+    CastPad(u32, u32, String),
     /// (sender, seq) -> sender * 1000 + seq
     #[rpc]
     Call(u32, u32, RpcReplyPort<u64>),
@@ -69,6 +71,11 @@ impl Actor for Probe {
         let x = xn(self.x);
         match m {
             ProbeMsg::Cast(s, q) => verif::emit_kv("obs.recv", 0, 0, vec![kvs("x", &x), kvs("k", "cast"), kvs("s", &sn(s)), kvi("q", q as i64)]),
+            ProbeMsg::CastPad(s, q, pad) => {
+                // the ballast arrives intact or the message is not a delivery of what was sent
+                let good = pad.len() % 1024 == 0 && pad.bytes().all(|b| b == b'p');
+                verif::emit_kv("obs.recv", 0, 0, vec![kvs("x", &x), kvs("k", if good { "cast" } else { "garbled" }), kvs("s", &sn(s)), kvi("q", q as i64)])
+            }
             ProbeMsg::Call(s, q, port) => {
                 verif::emit_kv("obs.recv", 0, 0, vec![kvs("x", &x), kvs("k", "call"), kvs("s", &sn(s)), kvi("q", q as i64)]);
                 if self.hold {
@@ -99,6 +106,8 @@ pub enum ROp {
     Call { d: usize, x: usize, timeout_ms: u64 },
     /// a message of a non-serializable type sent through the untyped cell of the proxy
     Wrong { d: usize, x: usize },
+    /// `n` casts in a row, each carrying `kib` KiB of ballast (several of them are waiting for the session's writer at once)
+    Burst { d: usize, x: usize, n: usize, kib: usize },
     Pause,
     Sleep(u64),
 }
@@ -179,6 +188,15 @@ async fn caller_impl(w: W, s: u32, ops: Vec<ROp>, free: bool) {
                 let r: ActorRef<ProbeMsg> = cell.into();
                 let ok = r.cast(ProbeMsg::Cast(s, q)).is_ok();
                 verif::emit_kv("obs.send", 0, i64::from(ok), vec![kvs("s", &sn(s)), kvi("q", q as i64), kvs("k", "cast"), kvs("dir", dn[d]), kvs("x", &xn(x))]);
+            }
+            ROp::Burst { d, x, n, kib } => {
+                let Some(cell) = lookup(&w, d, x) else { continue };
+                let r: ActorRef<ProbeMsg> = cell.into();
+                for _ in 0..n {
+                    q += 1;
+                    let ok = r.cast(ProbeMsg::CastPad(s, q, "p".repeat(kib * 1024))).is_ok();
+                    verif::emit_kv("obs.send", 0, i64::from(ok), vec![kvs("s", &sn(s)), kvi("q", q as i64), kvs("k", "cast"), kvs("dir", dn[d]), kvs("x", &xn(x))]);
+                }
             }
             ROp::Wrong { d, x } => {
                 let Some(cell) = lookup(&w, d, x) else { continue };
@@ -1051,6 +1069,29 @@ pub fn batch(out: &str, tier: &str, seed: u64) -> Value {
             }
             bad_runs += u64::from(bad);
         }
+    }
+    // bursts: several large casts wait for the session's writer task at the same moment (what it writes in one go is
+    // then far larger than usual); every one of them has to arrive, in order, followed by the call
+    for k in 0..(if thorough { 300 } else { 60 }) {
+        let d = k % 2;
+        let sc = Scenario {
+            hold: vec![false],
+            late: false,
+            callers: vec![vec![ROp::Burst { d, x: 0, n: 5, kib: 24 }, ROp::Call { d, x: 0, timeout_ms: 300 }]],
+            ctl: vec![COp::Join(0)],
+            cut_after_frames: None,
+            relay_seed: 40 + k as u64,
+            latency_ms: (k as u64 / 2) % 2,
+        };
+        let mut ex = Explorer::new(Mode::Random, rng.next());
+        ex.begin_run();
+        let (evs, meta, bad) = one_run(&sc, &mut ex, false);
+        steps += meta["steps"].as_u64().unwrap_or(0);
+        let h = b.run(meta, &evs);
+        if ex.nontrivial {
+            nontrivial.insert(h);
+        }
+        bad_runs += u64::from(bad);
     }
     b.finish();
     json!({"family": "remoteactor", "runs": b.runs, "events": b.events, "distinct": b.hashes.len(), "distinct_nontrivial": nontrivial.len(),
